@@ -138,6 +138,16 @@ func (st *SymbolTable) SetParams(params ...string) error {
 		return errors.New("parameters disabled")
 	}
 
+	for _, param := range params {
+		if _, ok := st.store[param]; ok {
+			return fmt.Errorf("%q redeclared in this block", param)
+		}
+	}
+	if st.numDefinition > 0 {
+		// arguments are bound to the first local slots of the function
+		return errors.New("parameters must be declared before variables")
+	}
+
 	st.numParams = len(params)
 	for _, param := range params {
 		if _, ok := st.store[param]; ok {
